@@ -256,6 +256,8 @@ void ResultPrint::printresv(int res)
         strlog(resstr, "Wrong magic number.");
     else if (res == 5)
         strlog(resstr, "Write error: output file is incomplete.");
+    else if (res == 6)
+        strlog(resstr, "Read error: input file could not be read completely.");
     else
         strlog(resstr, "Unknown res number: " + std::to_string(res));
     over = true;
